@@ -392,9 +392,20 @@ where
     ) -> Result<bool, Error> {
         loop {
             if self.get_buf().len() < self.buf_reader.capacity() {
-                // EOF reached, there will be no next record
-                self.state = State::Finished;
-                return self.check_end(incomplete_pos);
+                // The buffer is not full: the end of the input was reached, unless
+                // the last attempt to fill the buffer failed with an I/O error
+                // -> make sure that nothing more can be read
+                if fill_buf(&mut self.buf_reader)? == 0 {
+                    // EOF reached, there will be no next record.
+                    // (data read before a failed attempt was not searched yet)
+                    return match self.search_incomplete(incomplete_pos)? {
+                        None => Ok(true),
+                        Some(pos) => {
+                            self.state = State::Finished;
+                            self.check_end(pos)
+                        }
+                    };
+                }
             } else if !make_room || self.buf_pos.pos.0 == 0 {
                 // first record already incomplete -> buffer too small
                 self.grow()?;
